@@ -79,6 +79,14 @@ Theorem C01_target_walk_terminates : forall ops h a k,
   rec_leaves (length (anns (run ops)) + k) (run ops) (a_leaves a) = all_leaves (run ops) a.
 Proof. exact forward_walk_terminates. Qed.
 
+(* ... and it computes the closure under "targets": the resources an annotation reaches through
+   text selectors / names as metadata are those of its own selectors and of the selectors of
+   every annotation reachable from it, nothing more, nothing less (the other kinds are compared
+   with the same closure in the run) *)
+Theorem C01_target_resources_are_the_closure : forall ops h a, get_ann (run ops) h = Some a ->
+  fw_resources (run ops) a = sp_resources (run ops) a /\ fw_resources_meta (run ops) a = sp_resources_meta (run ops) a.
+Proof. exact forward_resources_are_the_closure. Qed.
+
 (* The comparator with which the members of Multi/Composite selectors are sorted before they are
    compressed (sort_unstable_by needs a consistent total order, for every mix of the nine selector
    kinds - the pinned code's comparator was not: fix f7d544a) is the lexicographic order of a key:
